@@ -56,7 +56,8 @@ class Q:
     def __init__(self, name, harness, srcs=(), env=None, defs=None, unwind=8, unwindset=(),
                  instr=(), cbmc=(), tier="quick", required=True, timeout=None, entry="harness",
                  scaled=(), expect_fail=None, solver=None, native=False, note="",
-                 repo_defs=None, leak=False, nowitness=False, pre=None, checks=True):
+                 repo_defs=None, leak=False, nowitness=False, pre=None, checks=True,
+                 lib_unwind_violation=False):
         self.name = name
         self.harness = harness
         self.srcs = list(srcs)
@@ -78,6 +79,7 @@ class Q:
         self.repo_defs = dict(repo_defs or {})
         self.leak = leak
         self.nowitness = nowitness
+        self.lib_unwind_violation = lib_unwind_violation
         self.checks = checks            # False: functional query, CBMC's memory-safety/overflow instrumentation off
         self.pre = pre                  # callable(wd, repo): generate headers into wd before compiling
 
@@ -332,11 +334,23 @@ def run_query(pid, q, tier, keep=False, verbose=False):
         res["obligations"] = total
         res["discharged"] = ok
         res["fails"] = fails
-        if any(f["kind"] in ("unwind", "nobody", "model") for f in fails):
+        # unwinding assertions of loops inside the library (not harness / model) with an input-derived bound are
+        # findings for queries that declare so (memory-safety harnesses on arbitrary input: the loop runs past its input)
+        for f in fails:
+            if f["kind"] == "unwind" and q.lib_unwind_violation and (f.get("file") or "").startswith(REPO + "/"):
+                f["kind"] = "property"
+                f["desc"] = "loop exceeds the bound derived from the input size: " + f["desc"]
+        real = [f for f in fails if f["kind"] in ("property",)]
+        infra = [f for f in fails if f["kind"] in ("unwind", "nobody", "model")]
+        if infra and not real:
             res["status"] = "harness-error"
-            res["error"] = "; ".join("%s %s" % (f["kind"], f["name"]) for f in fails
-                                      if f["kind"] in ("unwind", "nobody", "model"))[:1500]
+            res["error"] = "; ".join("%s %s" % (f["kind"], f["name"]) for f in infra)[:1500]
             return res
+        if infra and real:
+            # genuine failures plus bound/model failures on the same query: report the genuine ones
+            fails = [f for f in fails if f["kind"] not in ("unwind", "nobody", "model")]
+            res["fails"] = fails
+            res["note"] = (res.get("note") or "") + " [also: " + "; ".join("%s %s" % (f["kind"], f["name"]) for f in infra)[:300] + "]"
         res["status"] = "fail" if fails else "pass"
         if not fails and ok != total:
             # some properties are neither SUCCESS nor FAILURE (UNKNOWN/ERROR): never a pass
